@@ -31,7 +31,7 @@ ASSUMPTIONS = ['UGRID face centres without stored face coordinates are GEOS cent
 
 def arr_str(da) -> str:
     dims = ','.join(f'{d}:{s}' for d, s in zip(da.dims, da.shape)) or '-'
-    vals = np.asarray(da.values, dtype='f8').reshape(-1)
+    vals = util.as_num(da.values).reshape(-1)
     data = ','.join('nan' if np.isnan(v) else str(int(v)) for v in vals) or '-'
     return f'{dims}|{data}'
 
